@@ -96,6 +96,8 @@ Definition dec_op (s : sexp) : option op :=
   | SL [SA "del"; p] => option_map ODel (dec_path p)
   | SL [SA "promote"; p; l] => match dec_path p, dec_leaf l with Some p, Some l => Some (OPromote p l) | _, _ => None end
   | SL [SA "makememmap"; p; l] => match dec_path p, dec_leaf l with Some p, Some l => Some (OMakeMemmap p l) | _, _ => None end
+  | SL [SA "makememmapnested"; p; u; k; l] =>
+      match dec_path p, dec_nat u, dec_str k, dec_leaf l with Some p, Some u, Some k, Some l => Some (OMakeMemmapNested p u k l) | _, _, _, _ => None end
   | SL [SA "memmap"; p; b] => match dec_path p, dec_nat b with Some p, Some b => Some (OMemmap p b) | _, _ => None end
   | SL [SA "names"; p; n] => match dec_path p, dec_opt (dec_list dec_str) n with Some p, Some n => Some (OSetNames p n) | _, _ => None end
   | SL [SA "bs"; p; b] => match dec_path p, dec_list dec_nat b with Some p, Some b => Some (OSetBatchSize p b) | _, _ => None end
@@ -162,11 +164,9 @@ Fixpoint trace (fx : fixes) (hk : bool) (s : state) (ops : list op) : list sexp 
   end.
 
 Definition dec_fixes (s : sexp) : option fixes :=
-  match s with
-  | SL [a; b; c; d; e] => match dec_bool a, dec_bool b, dec_bool c, dec_bool d, dec_bool e with
-                          | Some a, Some b, Some c, Some d, Some e =>
-                              Some {| fix_rebind := a; fix_meta := b; fix_memmap := c; fix_lockgraph := d; fix_lockflag := e |}
-                          | _, _, _, _, _ => None end
+  match dec_list dec_bool s with
+  | Some [a; b; c; d; e; f; g] =>
+      Some {| fix_rebind := a; fix_meta := b; fix_memmap := c; fix_lockgraph := d; fix_lockflag := e; fix_unlockflags := f; fix_attach := g |}
   | _ => None
   end.
 
